@@ -8,7 +8,7 @@ CHECKS = {
  "C01": dict(
    category="exploration", design="DESIGN.md §5 C01",
    technique="property-based testing against an independent source-level reference interpreter (reference model): core-Ink programs generated as ASTs (proptest tapes, tape-aware shrinking), compiled by the tree under test and played along every choice path up to a depth/width/path bound; lines, tags, choices, end/error status, final globals and knot/stitch visit counts compared with the interpreter's",
-   text="Programs are generated as ASTs over the supported core (knots with parameters, stitches, diverts, weave choices and gathers with once-only/sticky/conditional/fallback/labelled forms and [bracket] text, inline and block conditionals, sequences/cycles/once-only alternatives, VAR/temp int-bool-string arithmetic, read counts, TURNS_SINCE, TURNS, CHOICE_COUNT, tunnels, functions with return values, text and ref parameters, threads, glue, tags, inline diverts, DONE/END) and printed in canonical layout. Every path of the bounded choice tree is replayed from a fresh story and from a fresh reference machine (harness/src/refint.rs: own lowering of the AST, call stack with threads, output-stream rules, counting rules); per turn the lines with tags and the choices with tags, at the end of each path every global (typed) and every knot/stitch visit count must agree. Exploration only: programs and bounded paths are sampled.",
+   text="Programs are generated as ASTs over the supported core (knots with parameters, stitches, diverts, weave choices and gathers with once-only/sticky/conditional/fallback/labelled forms and [bracket] text, inline and block conditionals, sequences/cycles/once-only alternatives, VAR/temp int-bool-string arithmetic, read counts, TURNS_SINCE, TURNS, CHOICE_COUNT, tunnels incl. '->-> target', functions with return values, text and ref parameters, threads incl. arguments, glue, tags, inline diverts, DONE/END) and printed in canonical layout. Every path of the bounded choice tree is replayed from a fresh story and from a fresh reference machine (harness/src/refint.rs: own lowering of the AST, call stack with threads, output-stream rules, counting rules); per turn the lines with tags and the choices with tags, at the end of each path every global (typed) and every knot/stitch visit count must agree. Exploration only: programs and bounded paths are sampled.",
    note="Trusted base: the reference interpreter, written from the Ink documentation and the reference engine's documented output rules and cross-checked against the reference-compiled corpus documents where they settle a question (leading line break of conditional branches and fallback choices, the space kept in front of an inline divert, the line break after logic lines that call functions). A continue that yields no text and no tags is not compared; a continue that reports an error is compared by status, not by the text it withheld. Fuel-bounded on both sides."),
  "C07": dict(
    category="exploration", design="DESIGN.md §5 C07",
